@@ -614,6 +614,23 @@ def hExpandRow : Handler := handler fun args =>
     pure (encGrid (expandRow (Vec.ofFn (← cs.toNats?) (fun q => xs.getD q 0))))
   | _ => none
 
+/-- `(nd_transpose (axes…) ((chunks…)…) (flat…))` ↦ `(chunks' ((block data…)…))`: the n-d transpose plan applied to the array
+    with C-order data `flat`; blocks in product order, each as its C-order data -/
+def hNdTranspose : Handler := handler fun args =>
+  match args with
+  | [axes, chunks, flat] => do
+    let axes ← axes.toNats?
+    let chunks ← chunks.toNatss?
+    let flat ← flat.toInts?
+    let shape := chunks.map Chunks.sum
+    let lin := fun (idx : List Nat) => (List.zip shape idx).foldl (fun acc p => acc * p.1 + p.2) 0
+    let a : NArr Int := NArr.ofFn chunks (fun idx => flat.getD (lin idx) 0)
+    let t := a.transpose axes
+    let blocks := (cartesian (t.chunks.map List.length)).map (fun B =>
+      (cartesian ((List.zip t.chunks B).map (fun p => p.1.getD p.2 0))).map (fun O => t.blk B O))
+    pure (.list [SExp.ofNatss t.chunks, encIntss blocks])
+  | _ => none
+
 /-- `(list_op op r ((block…)…))` ↦ blocks of `flip` / `tile` along one axis -/
 def hListOp : Handler := handler fun args =>
   match args with
@@ -998,7 +1015,7 @@ def table : List (String × Handler) := [
   ("expand_tuple", hExpandTuple), ("contract_tuple", hContractTuple), ("lower_dim", hLowerDim),
   ("shuffle_plan", hShufflePlan), ("take_plan", hTakePlan),
   ("reshape_rechunk", hReshapeRechunk), ("reshape_check", hReshapeCheck), ("blocks_flat", hBlocksFlat),
-  ("grid_op", hGridOp), ("stack_op", hStackOp), ("bcast_rows", hBcastRows), ("bcast_len1", hBcastLen1), ("list_op", hListOp), ("grid_cat", hGridCat), ("pad_const", hPadConst), ("squeeze_row", hSqueezeRow), ("expand_row", hExpandRow),
+  ("grid_op", hGridOp), ("stack_op", hStackOp), ("bcast_rows", hBcastRows), ("bcast_len1", hBcastLen1), ("list_op", hListOp), ("grid_cat", hGridCat), ("pad_const", hPadConst), ("squeeze_row", hSqueezeRow), ("expand_row", hExpandRow), ("nd_transpose", hNdTranspose),
   ("arange", hArange), ("linspace", hLinspace), ("eye", hEye), ("diag", hDiag),
   ("sf", hSoftFloat), ("arange_f", hArangeF), ("linspace_f", hLinspaceF), ("arange_old_lens", hArangeOldLens),
   ("normalize", hNormalize), ("blockdims", hBlockdims), ("intersect1d", hIntersect),
